@@ -53,6 +53,14 @@ CHECKS = {
    technique=TECH + "invariant monitors evaluated at every step of seeded indicator/method runs while the feed injects the regimes the property names: volatile -> exactly flat (stuck feed longer than every window, degenerate bars) -> volatile, zero-volume bars, spikes and scale jumps (reduced fit: monitoring of state machines under feed faults, no schedule)",
    text="Interval / ordering / containment / sign / finiteness predicates for the 14 range-documented indicators, 6 methods, clv and tr on every step; finiteness for all 36 indicators. Allowances: 64*u*(n+t) for unit-interval ratios (scaled by M_history/denominator for ratios of running sums, NOT relaxed on exactly flat windows), times price scale for orderings.",
    note="Value-slot meanings from DESIGN.md App. B. RSI/Stochastic/SMI/Envelopes range monitors only for MA kinds that cannot overshoot; volume-based sources exempt; finiteness exempt where the formula is undefined (zero window volume, correlation of a constant window)."),
+ "C19": dict(level="exploration", design="§4 C19, §2.7",
+   technique=TECH + "heterogeneous builds as replicas: the same seeded programs (Window observers/iterators/rebuilds, methods and indicators with ticks, batches, peeks, snapshots, crash-restores, forks) are executed by the default build and by the unsafe_performance build and the transcripts diffed; a second program set is executed by the unsafe_performance build inside the Miri interpreter, whose undefined-behaviour detector (bounds, validity, Stacked Borrows aliasing) is the in-bounds oracle",
+   text="Transcript equality on 600 (quick) / 30 000 (thorough, also plain release profile) programs filtered to those on which the default build does not panic; 24 / 400 programs under Miri, biased to Window/SMM/median users. Samples programs; Miri decides only the executions it ran.",
+   note="Programs are generated by the default build and handed over as explicit JSON. Miri's Stacked Borrows is experimental but is the strictest available in-bounds/aliasing oracle here (ASan needs a rebuilt std; not attempted). Transcripts produced under Miri are not compared."),
+ "C20": dict(level="exploration", design="§4 C20, §2.7",
+   technique=TECH + "heterogeneous builds as replicas: programs whose parameters fit u8 executed by the default, period_type_u16, period_type_u32, period_type_u64 builds (thorough: + unsafe_performance combination), transcripts diffed; the definitional engines of C01/C02/C04/C14 re-run inside the u16 build with windows up to 600/3000 and streams longer than 2^16 for the position counters, and C01-C04/C14 inside the value_type_f32 build with u = 2^-23 and the reference in f64",
+   text="Transcript equality of results (integers by value; serialized internal state is not part of the transcript because position counters of different width may legitimately be re-based differently) plus in-build definitional checks. Samples programs and streams.",
+   note="In the f32 build the feed keeps magnitudes where squares and window sums stay far from f32::MAX (overflow is not a rounding effect). u32/u64 builds run transcripts only (their extra capacity cannot be allocated)."),
 }
 NA = {
  "C16": "Action algebra is a total, stateless algebra over a finite domain: no history, state, fault, replica or schedule for a simulator to drive; the fitting technique (exhaustive enumeration) is model checking, which this task excludes (DESIGN.md §5).",
